@@ -253,14 +253,26 @@ def parse_ladder(path: str = 'data/grammar.lark') -> tuple[list[dict[str, Any]],
 			rules[cur] += ' ' + line.strip()
 
 	def op_tokens(rule: str) -> list[str]:
-		alts = [a.strip() for a in rules[rule].split('|')]
-		out = []
-		for a in alts:
-			a = a.split('->')[0].strip()
-			parts = re.findall(r'"([^"]+)"', a)
-			if not parts or re.sub(r'"[^"]+"', '', a).strip():
-				raise ValueError(f'grammar.lark: operator rule {rule}: unsupported alternative {a!r}')
-			out.append('.'.join(parts))
+		toks = re.findall(r'"[^"]*"|->|\||[A-Za-z_][A-Za-z_0-9]*', rules[rule])
+		if ''.join(toks) != re.sub(r'\s+', '', rules[rule]):
+			raise ValueError(f'grammar.lark: operator rule {rule}: unsupported syntax {rules[rule]!r}')
+		out: list[str] = []
+		cur: list[str] = []
+		alias = False
+		for t in [*toks, '|']:
+			if t == '|':
+				if not cur:
+					raise ValueError(f'grammar.lark: operator rule {rule}: empty alternative')
+				out.append('.'.join(cur))
+				cur, alias = [], False
+			elif t == '->':
+				alias = True
+			elif t.startswith('"') and not alias:
+				cur.append(t[1:-1])
+			elif alias and not t.startswith('"'):
+				pass   # alias name of the alternative (comp_in, comp_is_not, …): the node keeps the joined terminal tokens
+			else:
+				raise ValueError(f'grammar.lark: operator rule {rule}: unsupported token {t!r}')
 		return out
 
 	levels: list[dict[str, Any]] = []
